@@ -311,7 +311,10 @@ class C20(Prop):
     ]
 
     def model_runs(self, tier):
-        return [{"module": "MC_Jsx", "cfg": f"Jsx_{tier}.cfg"}]
+        runs = [{"module": "MC_Jsx", "cfg": f"Jsx_{tier}.cfg"}]
+        if tier == "thorough":
+            runs.append({"module": "MC_Jsx", "cfg": "Jsx_sim.cfg", "simulate": "num=5000", "depth": 12, "export": False, "timeout": 900})
+        return runs
 
     def nontrivial(self, rec):
         if rec.get("k") == "conv":
